@@ -30,6 +30,7 @@ type c07Case struct {
 	Constrain bool      `json:"constrain"` // use Selection.Constrain instead of Find("path?query")
 	Invalid  bool       `json:"invalid"`   // a parameter value is invalid: an error is expected
 	Via      dm.Path    `json:"via,omitempty"` // Find(path?query) is issued from this container with leading ../ steps
+	Chain    bool       `json:"chain,omitempty"` // (with Constrain) one parameter at a time: each step constrains the selection the step before returned
 	Raw      bool       `json:"raw,omitempty"` // parameter values are written as RFC 8040 shows them: ; / ( ) ! as they are
 }
 
@@ -259,8 +260,23 @@ func c07Run(c c07Case, o *hx.Obs) {
 					}
 				}
 				if query != "" {
-					if sel, rerr = sel.Constrain(query); rerr != nil {
-						return
+					qs := []string{query}
+					if c.Chain && len(c.Params) > 1 {
+						// the parameters one after the other, alternating between Constrain and Find("?...")
+						qs = nil
+						for _, p := range c.Params {
+							qs = append(qs, c07QueryAs([]c07Param{p}, c.Raw))
+						}
+					}
+					for i, q := range qs {
+						if i%2 == 0 {
+							sel, rerr = sel.Constrain(q)
+						} else {
+							sel, rerr = sel.Find("?" + q)
+						}
+						if rerr != nil || sel == nil {
+							return
+						}
 					}
 				}
 			} else {
@@ -308,6 +324,9 @@ func c07Run(c c07Case, o *hx.Obs) {
 	query := c07QueryAs(c.Params, c.Raw)
 	if c.Raw {
 		o.Class("query written raw")
+	}
+	if c.Chain {
+		o.Class("parameters applied one selection after the other")
 	}
 	got, text, gerr, panicked := read(query)
 	if panicked {
@@ -518,6 +537,13 @@ func c07Gen(t *rapid.T) c07Case {
 		c.Params = []c07Param{bad}
 	}
 	c.Raw = rapid.Bool().Draw(t, "raw")
+	if c.Constrain && !c.Invalid && len(c.Params) > 1 {
+		names := map[string]bool{}
+		for _, p := range c.Params {
+			names[p.Name] = true
+		}
+		c.Chain = len(names) == len(c.Params) && rapid.Bool().Draw(t, "chain")
+	}
 	return c
 }
 
